@@ -6,7 +6,9 @@ package main
 
 import (
 	"fmt"
+	"sort"
 	"strings"
+	"time"
 
 	"verifharness/vh"
 )
@@ -42,6 +44,15 @@ type TxtRules struct {
 	Min, Max   *string
 	XMin, XMax *bool
 }
+
+// TimestampField.Rules: bounds in whole seconds
+type TSRules struct {
+	Min, Max   *int64
+	XMin, XMax *bool
+}
+
+// ObjectField.Rules
+type ObjRules struct{ Min, Max *uint64 }
 
 type KFmt int
 
@@ -102,6 +113,22 @@ type FTy struct {
 	SFormat *string  // StringField.format
 	AnyOD   bool     // AnyField.only_defined
 	AnyT    []string // AnyField.types
+	FloatR  bool      // FloatField.rules present (minimum = 1.5): the compiler refuses them
+	TS      *TSRules  // TimestampField.rules
+	ObjR    *ObjRules // ObjectField.rules
+	OneofR  bool      // OneofField.rules present (an empty message; only the source AST can say it)
+	Ref     string    // reference target of an object / oneof field: "" = Bar / Choice, or "Baz" / "Pick"
+}
+
+// refName: the schema an object / oneof field refers to
+func (t FTy) refName() string {
+	if t.Ref != "" {
+		return t.Ref
+	}
+	if t.Kind == TOneof {
+		return "Choice"
+	}
+	return "Bar"
 }
 
 type PKind int
@@ -133,22 +160,54 @@ type EnumEnv struct {
 	Desc           string   // description of the enum
 	OptDescs       []string // description per option (parallel to Options)
 	UnspecDesc     string
+	OptInfos       []map[string]string // info per option (parallel to Options)
+	UnspecInfo     map[string]string
+	InfoFields     [][3]string // the enum's info fields: name, label, description
 }
 
 // EnumDecl renders the declaration as a Coq enum_decl.
+// infoTerm: a map<string,string> as (key, value) pairs sorted by key
+func infoTerm(m map[string]string) string {
+	keys := make([]string, 0, len(m))
+	for k := range m {
+		keys = append(keys, k)
+	}
+	sort.Strings(keys)
+	parts := make([]string, len(keys))
+	for i, k := range keys {
+		parts[i] = fmt.Sprintf("(%s, %s)", vh.BytesTerm(k), vh.BytesTerm(m[k]))
+	}
+	return "[" + strings.Join(parts, ";") + "]"
+}
+
+func infoFieldsTerm(fs [][3]string) string {
+	parts := make([]string, len(fs))
+	for i, f := range fs {
+		parts[i] = fmt.Sprintf("(%s, %s, %s)", vh.BytesTerm(f[0]), vh.BytesTerm(f[1]), vh.BytesTerm(f[2]))
+	}
+	return "[" + strings.Join(parts, ";") + "]"
+}
+
+func (e EnumEnv) optInfo(i int) map[string]string {
+	if i < len(e.OptInfos) {
+		return e.OptInfos[i]
+	}
+	return nil
+}
+
 func (e EnumEnv) DeclCoq() string {
 	var opts []string
 	if e.Unspecified != "" {
-		opts = append(opts, fmt.Sprintf("(%s, %s)", vh.BytesTerm(e.Unspecified), vh.BytesTerm(e.UnspecDesc)))
+		opts = append(opts, fmt.Sprintf("(%s, %s, %s)", vh.BytesTerm(e.Unspecified), vh.BytesTerm(e.UnspecDesc), infoTerm(e.UnspecInfo)))
 	}
 	for i, o := range e.Options {
 		d := ""
 		if i < len(e.OptDescs) {
 			d = e.OptDescs[i]
 		}
-		opts = append(opts, fmt.Sprintf("(%s, %s)", vh.BytesTerm(o), vh.BytesTerm(d)))
+		opts = append(opts, fmt.Sprintf("(%s, %s, %s)", vh.BytesTerm(o), vh.BytesTerm(d), infoTerm(e.optInfo(i))))
 	}
-	return fmt.Sprintf("(ED %s %s [%s])", vh.BytesTerm(e.Desc), vh.BytesTerm(e.Prefix), strings.Join(opts, ";"))
+	return fmt.Sprintf("(ED %s %s [%s] %s)", vh.BytesTerm(e.Desc), vh.BytesTerm(e.Prefix), strings.Join(opts, ";"), infoFieldsTerm(e.InfoFields))
 }
 
 func (e EnumEnv) J5S() string {
@@ -160,22 +219,44 @@ func (e EnumEnv) J5S() string {
 	if e.ExplicitPrefix {
 		fmt.Fprintf(&sb, "\tprefix = %s\n", q(e.Prefix))
 	}
-	opt := func(name, desc string) {
-		if desc == "" {
-			fmt.Fprintf(&sb, "\toption %s\n", name)
-		} else {
-			fmt.Fprintf(&sb, "\toption %s {\n\t\t| %s\n\t}\n", name, desc)
+	for _, f := range e.InfoFields {
+		fmt.Fprintf(&sb, "\tinfo {\n\t\tname = %s\n", q(f[0]))
+		if f[1] != "" {
+			fmt.Fprintf(&sb, "\t\tlabel = %s\n", q(f[1]))
 		}
+		if f[2] != "" {
+			fmt.Fprintf(&sb, "\t\tdescription = %s\n", q(f[2]))
+		}
+		sb.WriteString("\t}\n")
+	}
+	opt := func(name, desc string, info map[string]string) {
+		if desc == "" && len(info) == 0 {
+			fmt.Fprintf(&sb, "\toption %s\n", name)
+			return
+		}
+		fmt.Fprintf(&sb, "\toption %s {\n", name)
+		if desc != "" {
+			fmt.Fprintf(&sb, "\t\t| %s\n", desc)
+		}
+		keys := make([]string, 0, len(info))
+		for k := range info {
+			keys = append(keys, k)
+		}
+		sort.Strings(keys)
+		for _, k := range keys {
+			fmt.Fprintf(&sb, "\t\tinfo.%s = %s\n", k, q(info[k]))
+		}
+		sb.WriteString("\t}\n")
 	}
 	if e.Unspecified != "" {
-		opt(e.Unspecified, e.UnspecDesc)
+		opt(e.Unspecified, e.UnspecDesc, e.UnspecInfo)
 	}
 	for i, o := range e.Options {
 		d := ""
 		if i < len(e.OptDescs) {
 			d = e.OptDescs[i]
 		}
-		opt(o, d)
+		opt(o, d, e.optInfo(i))
 	}
 	sb.WriteString("}\n")
 	return sb.String()
@@ -200,6 +281,13 @@ func optB(p *bool) string {
 		return "None"
 	}
 	return "(Some " + vh.BoolTerm(*p) + ")"
+}
+// patterns are emitted as code points (the Coq regular-expression model reads code points)
+func optRunes(p *string) string {
+	if p == nil {
+		return "None"
+	}
+	return "(Some " + vh.RunesTerm(*p) + ")"
 }
 func optS(p *string) string {
 	if p == nil {
@@ -253,7 +341,7 @@ func (t FTy) Coq() string {
 	case TStr:
 		r := "None"
 		if t.Str != nil {
-			r = fmt.Sprintf("(Some (SR %s %s %s))", optS(t.Str.Pat), optN(t.Str.Min), optN(t.Str.Max))
+			r = fmt.Sprintf("(Some (SR %s %s %s))", optRunes(t.Str.Pat), optN(t.Str.Min), optN(t.Str.Max))
 		}
 		return fmt.Sprintf("(TStr %s %s %s)", optS(t.SFormat), r, t.List.Coq())
 	case TBytes:
@@ -280,7 +368,7 @@ func (t FTy) Coq() string {
 		case KInformal:
 			f = "(Some KInformal)"
 		case KCustom:
-			f = "(Some (KCustom " + vh.BytesTerm(t.KPat) + "))"
+			f = "(Some (KCustom " + vh.RunesTerm(t.KPat) + "))"
 		case KUuid:
 			f = "(Some KUuid)"
 		case KId62:
@@ -288,19 +376,27 @@ func (t FTy) Coq() string {
 		}
 		return fmt.Sprintf("(TKey %s %s %s)", f, t.Entity.Coq(), t.List.Coq())
 	case TFloat:
-		return fmt.Sprintf("(TFloat %s %s)", vh.BoolTerm(t.F64), t.List.Coq())
+		return fmt.Sprintf("(TFloat %s %s %s)", vh.BoolTerm(t.F64), vh.BoolTerm(t.FloatR), t.List.Coq())
 	case TDate:
 		return fmt.Sprintf("(TDate %s %s)", t.Txt.Coq(), t.List.Coq())
 	case TDecimal:
 		return fmt.Sprintf("(TDecimal %s %s)", t.Txt.Coq(), t.List.Coq())
 	case TTimestamp:
-		return fmt.Sprintf("(TTimestamp %s)", t.List.Coq())
+		r := "None"
+		if t.TS != nil {
+			r = fmt.Sprintf("(Some (TSR %s %s %s %s))", optZ(t.TS.Min), optZ(t.TS.Max), optB(t.TS.XMin), optB(t.TS.XMax))
+		}
+		return fmt.Sprintf("(TTimestamp %s %s)", r, t.List.Coq())
 	case TAny:
 		return fmt.Sprintf("(TAny %s %s %s)", vh.BoolTerm(t.AnyOD), strList(t.AnyT), t.List.Coq())
 	case TObject:
-		return fmt.Sprintf("(TObject %s)", vh.BoolTerm(t.Flatten))
+		r := "None"
+		if t.ObjR != nil {
+			r = fmt.Sprintf("(Some (OBR %s %s))", optN(t.ObjR.Min), optN(t.ObjR.Max))
+		}
+		return fmt.Sprintf("(TObject %s %s)", vh.BoolTerm(t.Flatten), r)
 	case TOneof:
-		return fmt.Sprintf("(TOneof %s)", t.List.Coq())
+		return fmt.Sprintf("(TOneof %s %s)", vh.BoolTerm(t.OneofR), t.List.Coq())
 	}
 	panic("unknown type kind")
 }
@@ -327,7 +423,16 @@ func (p Prop) Coq() string {
 }
 
 func (e EnumEnv) Coq() string {
-	return fmt.Sprintf("(EE %s %s)", vh.BytesTerm(e.Prefix), strList(e.Options))
+	zero := "None"
+	if e.Unspecified != "" {
+		zero = "(Some " + vh.BytesTerm(e.Unspecified) + ")"
+	}
+	return fmt.Sprintf("(EE %s %s %s)", vh.BytesTerm(e.Prefix), zero, strList(e.Options))
+}
+
+// stdZero: the explicit zero option is spelled UNSPECIFIED (with or without the prefix)
+func (e EnumEnv) stdZero() bool {
+	return e.Unspecified == "UNSPECIFIED" || e.Unspecified == e.Prefix+"UNSPECIFIED"
 }
 
 // ---------------------------------------------------------------- j5s text
@@ -463,6 +568,9 @@ func (t FTy) j5s(enum EnumEnv, prefix string) (tag string, lines []string) {
 		if t.F64 {
 			tag = "float:FLOAT64"
 		}
+		if t.FloatR {
+			add("rules.minimum = 1.5")
+		}
 	case TDate, TDecimal:
 		tag = "date"
 		if t.Kind == TDecimal {
@@ -484,6 +592,20 @@ func (t FTy) j5s(enum EnumEnv, prefix string) (tag string, lines []string) {
 		}
 	case TTimestamp:
 		tag = "timestamp"
+		if r := t.TS; r != nil {
+			if r.Min != nil {
+				add("rules.minimum = %s", q(time.Unix(*r.Min, 0).UTC().Format(time.RFC3339)))
+			}
+			if r.Max != nil {
+				add("rules.maximum = %s", q(time.Unix(*r.Max, 0).UTC().Format(time.RFC3339)))
+			}
+			if r.XMin != nil {
+				add("rules.exclusiveMinimum = %v", *r.XMin)
+			}
+			if r.XMax != nil {
+				add("rules.exclusiveMaximum = %v", *r.XMax)
+			}
+		}
 	case TAny:
 		tag = "any"
 		if t.AnyOD {
@@ -493,12 +615,20 @@ func (t FTy) j5s(enum EnumEnv, prefix string) (tag string, lines []string) {
 			add("types = %s", qList(t.AnyT))
 		}
 	case TObject:
-		tag = "object:Bar"
+		tag = "object:" + t.refName()
 		if t.Flatten {
 			add("flatten = true")
 		}
+		if r := t.ObjR; r != nil {
+			if r.Min != nil {
+				add("rules.minProperties = %d", *r.Min)
+			}
+			if r.Max != nil {
+				add("rules.maxProperties = %d", *r.Max)
+			}
+		}
 	case TOneof:
-		tag = "oneof:Choice"
+		tag = "oneof:" + t.refName()
 	}
 	lines = append(lines, t.List.lines(prefix)...)
 	return tag, lines
@@ -575,7 +705,7 @@ func FileRoot(kind string, enum EnumEnv, objName, objDesc string, props []Prop) 
 	var sb strings.Builder
 	sb.WriteString("package foo.v1\n\n")
 	sb.WriteString(enum.J5S())
-	sb.WriteString("\nobject Bar {\n\tfield x string\n}\n\noneof Choice {\n\toption a string\n\toption b integer:INT32\n}\n\n")
+	sb.WriteString("\nobject Bar {\n\tfield x string\n}\n\nobject Baz {\n\tfield y integer:INT32\n}\n\noneof Choice {\n\toption a string\n\toption b integer:INT32\n}\n\noneof Pick {\n\toption c string\n}\n\n")
 	fmt.Fprintf(&sb, "%s %s {\n", kind, objName)
 	if objDesc != "" {
 		fmt.Fprintf(&sb, "\t| %s\n\n", objDesc)
